@@ -163,6 +163,30 @@ func wDecodedIdentity(c *Ctx, fns [][3]string, floor int) {
 			mixes bool
 		}
 		stores := map[slot][]st{}
+		// a composite literal is built in a temporary and copied whole into the
+		// variable (*rr = *tmp): the temporary and the variable are one object
+		alias := map[ssa.Value]ssa.Value{}
+		for _, f := range all {
+			for _, b := range f.Blocks {
+				for _, in := range b.Instrs {
+					s, ok := in.(*ssa.Store)
+					if !ok {
+						continue
+					}
+					ld, ok := s.Val.(*ssa.UnOp)
+					if !ok {
+						continue
+					}
+					tmp, isA := ld.X.(*ssa.Alloc)
+					dst, isD := s.Addr.(*ssa.Alloc)
+					if isA && isD && tmp != dst {
+						if _, isStruct := derefType(tmp.Type()).Underlying().(*types.Struct); isStruct {
+							alias[tmp] = dst
+						}
+					}
+				}
+			}
+		}
 		for _, f := range all {
 			for _, b := range f.Blocks {
 				for _, in := range b.Instrs {
@@ -197,6 +221,9 @@ func wDecodedIdentity(c *Ctx, fns [][3]string, floor int) {
 							continue
 						}
 						break
+					}
+					if a, ok := alias[root]; ok {
+						root = a
 					}
 					w, m := wireInt(s.Val, map[ssa.Value]bool{})
 					k := slot{p.FuncName(f) + ": " + owner + "@" + root.Name(), stt.Field(fa.Field).Name()}
